@@ -33,6 +33,9 @@ func constLine() string {
 	return l
 }
 
+// fine-grained outcome kinds as the model names them (the tracer cannot tell the evm.go-level failures apart)
+var modelKinds = map[string]int{}
+
 type leanTx struct {
 	class   string
 	gasLeft string
@@ -187,7 +190,11 @@ func compareWithModel(c *testCase, g *caseResult, drv *vh.Driver) (diffs []strin
 		}
 		for _, e := range lt.events {
 			le = append(le, leanEventNorm(e))
+			if f := strings.Split(e, ":"); len(f) == 6 {
+				modelKinds["model-frame-"+f[2]]++
+			}
 		}
+		modelKinds["model-tx-"+lt.class]++
 		if strings.Join(ge, ",") != strings.Join(le, ",") {
 			k := 0
 			for k < len(ge) && k < len(le) && ge[k] == le[k] {
@@ -486,7 +493,8 @@ func run(c *vh.Ctx) error {
 		}
 	}
 	// ---- generated cases ---------------------------------------------------------------------------
-	n := c.N(2500, 60000)
+	n := c.N(15000, 200000)
+	deepEvery := c.N(3000, 5000)
 	if c.Search {
 		n *= 3
 	}
@@ -497,11 +505,13 @@ func run(c *vh.Ctx) error {
 		switch {
 		case i%40 == 7:
 			tc, stream = ghostCase(c.R), "deleted-then-touched"
+		case i%deepEvery == 11:
+			tc, stream = deepCase(c.R), "depth-limit"
 		default:
 			tc = genCase(c.R)
 		}
 		// aim the gas of one transaction at the point where it just runs out
-		if c.R.Chance(45) {
+		if c.R.Chance(45) && !tc.deep {
 			if g0, fatal := runGo(tc, false); fatal == "" && len(g0.txs) > 0 {
 				k := c.R.Intn(len(g0.txs))
 				if k < len(tc.txs) && g0.txs[k].panicMsg == "" {
@@ -540,6 +550,9 @@ func run(c *vh.Ctx) error {
 	}
 	for k, v := range reported {
 		res.DistN("failing-cases "+k, v)
+	}
+	for k, v := range modelKinds {
+		res.DistN(k, v)
 	}
 	probes(c, drv)
 	res.Partial = append(res.Partial,
